@@ -24,7 +24,7 @@ does not make the base declared.  The harness realises the numbers as a class hi
 | `exec (.raise ..)`             | `raiseEvent` 260-292 (instance / class form, early-out, declared check, snapshot) and `raiseEventNoErrors` 241-250 |
 | `step` (frame part), `hret`    | the dispatch loop 293-317 and its return-value protocol                                                 |
 | `abort`                        | an exception leaving the loop; `raiseEventNoErrors`' `except ReventError: raise / except: hook; return None` |
-| `Frame.halt`, `Script.halt`, `stopsAt` | `event.halt` assigned by a handler; tested at 315 only when the handler returned something (299 `continue`) |
+| `M.halts`, `Frame.ev`, `Form.again`, `Script.halt`, `stopsAt` | `event.halt` assigned by a handler; tested at 315 only when the handler returned something (299 `continue`) |
 | `Src.inited`, `Src.touch`, `.count` | `_eventMixin_init` 221-229 called by `addListener` 439, `removeListener` 340, `raiseEvent` 260; `clearHandlers` creates the dict; the counter 329 needs it |
 | `M.srcs`, `setSrc`, `doActionM` | several `EventMixin` objects; the module-global `_nextEventID`; an owner's weakref callbacks reach every source |
 
@@ -33,12 +33,13 @@ delivery frames, run structurally on fuel (`run`).  Handler behaviour is a param
 the actions the handler performs (each either *guarded* = the handler catches its exception, or not) and what it
 returns / raises.  Partial Python operations stay partial: every action yields `Res.ok v` or `Res.exc k`.
 
-`event.halt` is modelled (`Frame.halt`, `Script.halt`): a handler may assign it; the loop looks at it only after a
+`event.halt` is modelled (`M.halts`, one flag per event object, shared by every delivery of that object — an event one has
+received may be raised again, on the same or another source, also from inside its own handler; `Script.halt`): a handler may assign it; the loop looks at it only after a
 handler that returned something other than `None` (299 `continue` skips the test at 315).  Lazy initialisation is
 modelled (`Src.inited`: the instance attribute `_eventMixin_handlers` exists): every entry point but
 `_eventMixin_get_listener_count` creates it; the counter raises `AttributeError` without it.
 
-Not modelled (assumptions of C05): raising the same event *instance* twice, `Event._invoke` overrides, non-`Event`
+Not modelled (assumptions of C05): `Event._invoke` overrides, non-`Event`
 arguments to `raiseEvent`, an exception hook that itself raises, two declared event classes with the same `__name__`,
 and the collection of an owner while one of its own methods is executing (CPython defers it; the harness does not release
 it then, and `exec` mirrors that: `ownerRunning`).  Core only. -/
@@ -87,8 +88,9 @@ structure Entry where
   deriving DecidableEq, Repr
 
 /-- how `raiseEvent*` is called: with an event instance, with an event class, or with something that is neither
-    (`junk isClass`: some other class, or some other object) -/
-inductive Form | inst | cls | junk (isClass : Bool)
+    (`junk isClass`: some other class, or some other object); `again f`: with the very event object that `raiseEvent*` call
+    number `f` carried or created; `fwd`: with the event object the innermost running handler is handling (forwarding) -/
+inductive Form | inst | cls | junk (isClass : Bool) | again (f : Nat) | fwd
   deriving DecidableEq, Repr
 
 inductive Action
@@ -266,7 +268,7 @@ structure Frame where
   guarded : Bool               -- the caller catches an exception of this raise
   snap : List Entry            -- the snapshot taken at 292 (never changes)
   rest : List Entry            -- the part of it the `for` loop has not reached yet
-  halt : Bool                  -- `event.halt`
+  ev : Nat                     -- which event object is being delivered (the number of the call that first carried it)
   cur : Option (Entry × List (SAct × Bool) × Ret)   -- the handler now running: its entry, remaining actions, return
   deriving DecidableEq
 
@@ -310,15 +312,20 @@ structure M where
   pend : Option (Res × Bool)   -- a result on its way to the innermost running handler (or to top level); guarded?
   log : List Ev
   nextFid : Nat
+  halts : Nat → Bool           -- `event.halt` of every event object (shared by all deliveries of that object)
+  evOf : Nat → Option (Nat × Nat)   -- the event object of `raiseEvent*` call number f, if one exists: (object, its event type)
   gone : List (Nat × Bool)     -- weak subscriptions still sitting in an in-flight snapshot whose owner has been collected:
                                -- (eid, the proxy's own removal failed with KeyError: it will raise "object is gone")
 
 def M.init (v : Variant) (srcs : Nat → Src) (ops : List SAct) : M :=
-  { v := v, srcs := srcs, stack := [], todo := ops, pend := none, log := [], nextFid := 0, gone := [] }
+  { v := v, srcs := srcs, stack := [], todo := ops, pend := none, log := [], nextFid := 0,
+    halts := fun _ => false, evOf := fun _ => none, gone := [] }
 
 /-- the loop of delivery `fr` ends normally: `break` (`halt`) or exhaustion; 317 `return event` -/
-def finish (m : M) (fr : Frame) (st : List Frame) (halt : Bool) : M :=
+def finish (m : M) (fr : Frame) (st : List Frame) (brk : Bool) : M :=
+  let halt := brk || m.halts fr.ev             -- every `break` is taken with `event.halt = True`
   { m with stack := st, pend := some (.ok (.event halt), fr.guarded),
+           halts := fun e => if e = fr.ev then halt else m.halts e,
            log := m.log ++ [.endf fr.fid fr.noErr (.ok (.event halt))] }
 
 /-- the running handler of `fr` raises `k`: the exception leaves `raiseEvent` (with D60 repaired, after the one-shot
@@ -327,7 +334,7 @@ def finish (m : M) (fr : Frame) (st : List Frame) (halt : Bool) : M :=
 def abort (m : M) (fr : Frame) (st : List Frame) (k : Exc) : M :=
   let r : Res := if fr.noErr && (m.v.noErrAll || k != .revent) then .ok .none else .exc k
   let lg : List Ev := match fr.cur with
-    | some (e, _, _) => [.ret fr.fid e (.exc k) fr.halt]
+    | some (e, _, _) => [.ret fr.fid e (.exc k) (m.halts fr.ev)]
     | none => []
   let srcs := match fr.cur with
     | some (e, _, _) => if m.v.onceFinally && e.once then updSrc m.srcs fr.src (rmEidAll (m.srcs fr.src) e.eid) else m.srcs
@@ -339,14 +346,14 @@ def hret (m : M) (fr : Frame) (st : List Frame) (e : Entry) (r : Ret) : M :=
   let s0 := m.srcs fr.src
   let s1 := if e.once then rmEidAll s0 e.eid else s0
   let s2 := if r.removes then rmEidAll s1 e.eid else s1
-  let m' := { m with srcs := updSrc m.srcs fr.src s2, log := m.log ++ [.ret fr.fid e r fr.halt] }
-  if stopsAt r fr.halt then finish m' fr st true       -- every `break` is taken with `event.halt == True`
+  let m' := { m with srcs := updSrc m.srcs fr.src s2, log := m.log ++ [.ret fr.fid e r (m.halts fr.ev)] }
+  if stopsAt r (m.halts fr.ev) then finish m' fr st true
   else { m' with stack := { fr with cur := none } :: st }
 
 /-- 292: take the snapshot and enter the loop.  `f` identifies the `raiseEvent*` call. -/
-def push (m : M) (f i et : Nat) (noErr g : Bool) : M :=
+def push (m : M) (f i et ev : Nat) (noErr g : Bool) : M :=
   let snap := (m.srcs i).subscribers et
-  { m with stack := { fid := f, src := i, et, noErr, guarded := g, snap, rest := snap, halt := false, cur := none } :: m.stack,
+  { m with stack := { fid := f, src := i, et, noErr, guarded := g, snap, rest := snap, ev, cur := none } :: m.stack,
            log := m.log ++ [.begin f i et snap] }
 
 /-- one action of the innermost running handler (or of top level) on the sources: collecting an owner concerns every
@@ -375,11 +382,18 @@ def exec (m : M) (sa : SAct) (g : Bool) : M :=
     else
       let r := doActionM m.srcs sa.src (.dropOwner o)
       { m with srcs := r.1, pend := some (r.2, g), gone := m.gone ++ collect m.srcs o m.stack }
-  | .raise et form noErr =>
+  | .raise et0 form noErr =>
     -- every `raiseEvent*` call gets the next id, whether or not it gets as far as the dispatch loop; 260: lazy init
-    let m1 : M := { m with nextFid := m.nextFid + 1, srcs := updSrc m.srcs sa.src (m.srcs sa.src).touch }
-    let start : M := if (m.srcs sa.src).isDeclared et then push m1 m.nextFid sa.src et noErr g
-                     else { m1 with pend := some (.exc .revent, g) }        -- 285-288
+    let f := m.nextFid
+    -- which event object, and of which type: a fresh one of type `et0`, or (`again`) the one an earlier call carried
+    let (ev, et) : Nat × Nat := match form with
+      | .again f0 => (match m.evOf f0 with | some p => p | none => (f, et0))
+      | .fwd => (match m.stack with | fr :: _ => (fr.ev, fr.et) | [] => (f, et0))
+      | _ => (f, et0)
+    let m1 : M := { m with nextFid := f + 1, srcs := updSrc m.srcs sa.src (m.srcs sa.src).touch }
+    let m2 : M := { m1 with evOf := fun k => if k = f then some (ev, et) else m.evOf k }     -- an event object exists for this call
+    let start : M := if (m.srcs sa.src).isDeclared et then push m2 f sa.src et ev noErr g
+                     else { m2 with pend := some (.exc .revent, g) }        -- 285-288
     match form with
     | .junk isClass =>
       -- not an event at all.  Unrepaired: `issubclass(5, Event)` is a TypeError, and a non-Event class falls through to
@@ -392,6 +406,8 @@ def exec (m : M) (sa : SAct) (g : Bool) : M :=
         else .exc (if isClass then .unbound else .other)
       { m1 with pend := some (r, g) }
     | .inst => start
+    | .again _ => start
+    | .fwd => start
     | .cls =>
       match (m.srcs sa.src).handlers et with              -- 269-272 early-out: no event object is created
       | none => { m1 with pend := some (.ok .none, g) }
@@ -431,7 +447,7 @@ def step (β : Beh) (m : M) : M :=
       | some (e, [], r) => hret m fr st e r
       | none =>
         match fr.rest with
-        | [] => finish m fr st fr.halt
+        | [] => finish m fr st false
         | e :: rest =>
           match claim m.v m.srcs fr.src e with
           | none =>
@@ -445,8 +461,10 @@ def step (β : Beh) (m : M) : M :=
             | none =>
               let sc := β e.hid m.log
               { m with srcs := srcs', log := m.log ++ [.call fr.fid fr.src e true],
-                       stack := { fr with rest := rest, cur := some (e, sc.acts, sc.ret),
-                                          halt := match sc.halt with | some b => b | none => fr.halt } :: st }
+                       halts := (match sc.halt with
+                                 | some b => fun k => if k = fr.ev then b else m.halts k     -- the handler assigns `event.halt`
+                                 | none => m.halts),
+                       stack := { fr with rest := rest, cur := some (e, sc.acts, sc.ret) } :: st }
 
 def run (β : Beh) : Nat → M → M
   | 0, m => m
